@@ -621,7 +621,7 @@ func (r *Runner) cmd(ctx context.Context, cm syntax.Command) {
 			if cm.Select {
 				ps3 := cmp.Or(r.envGet(shellReplyPS3Var), shellDefaultPS3)
 
-				for menu := true; ; {
+				for menu := true; !r.stop(ctx); {
 					if menu {
 						// display menu
 						for i, word := range items {
